@@ -26,7 +26,8 @@ impl Iterator for PyRange {
             return None;
         }
         let out = self.cur;
-        self.cur += self.step;
+        // If the next value is not representable the range is exhausted: stop instead of wrapping around.
+        self.cur = self.cur.checked_add(self.step).unwrap_or(self.end);
         Some(out)
     }
 }
